@@ -38,7 +38,8 @@ pub struct Cfg {
 
 #[derive(Clone, Debug)]
 pub enum Op {
-    Build { inbound: bool },
+    /// (an inbound entry may ask for several tokens at once: the inbound QPS counts tokens)
+    Build { inbound: bool, batch: u32 },
     Exit(usize),
     Advance(u64),
     SetLoad(f64),
@@ -54,6 +55,7 @@ struct Open {
     e: EntryStrongPtr,
     inbound: bool,
     start: u64,
+    batch: u32,
 }
 
 pub struct C09 {
@@ -159,24 +161,24 @@ impl Subject for C09 {
         if let Some((n, r, m)) = self.cfg0.script {
             let mut ops = vec![];
             for _ in 0..n {
-                ops.push(Op::Build { inbound: true });
+                ops.push(Op::Build { inbound: true, batch: 1 });
             }
             ops.push(Op::Advance(r));
             for _ in 0..n {
                 ops.push(Op::Exit(0));
             }
             for _ in 0..m {
-                ops.push(Op::Build { inbound: true });
+                ops.push(Op::Build { inbound: true, batch: 1 });
             }
             if self.cfg0.rules[0].metric == Metric::Load {
                 ops.push(Op::SetLoad(0.9));
             } else {
                 ops.push(Op::SetCpu(90.0));
             }
-            ops.push(Op::Build { inbound: true });
+            ops.push(Op::Build { inbound: true, batch: 1 });
             return ops.get(self.step_no).cloned().into_iter().collect();
         }
-        let mut v = vec![Op::Build { inbound: true }, Op::Build { inbound: false }];
+        let mut v = vec![Op::Build { inbound: true, batch: 1 }, Op::Build { inbound: false, batch: 1 }, Op::Build { inbound: true, batch: 3 }];
         for i in 0..self.open.len().min(4) {
             v.push(Op::Exit(i));
         }
@@ -239,9 +241,9 @@ impl Subject for C09 {
             Op::Exit(i) => {
                 let o = self.open.remove(*i);
                 o.e.exit();
-                self.ledger.complete(if o.inbound { RIN } else { ROUT }, o.inbound, t, 1, t - o.start);
+                self.ledger.complete(if o.inbound { RIN } else { ROUT }, o.inbound, t, o.batch as u64, t - o.start);
             }
-            Op::Build { inbound } => {
+            Op::Build { inbound, batch } => {
                 if self.open.len() >= 4 {
                     return Ok(());
                 }
@@ -252,13 +254,13 @@ impl Subject for C09 {
                 let expect_reject = *inbound && !tripping.is_empty();
                 let tt = if *inbound { TrafficType::Inbound } else { TrafficType::Outbound };
                 self.ledger.touch(res);
-                match build(res, tt, 1) {
+                match build(res, tt, *batch) {
                     Built::Ok(e) => {
                         if expect_reject {
                             return Err(format!("admitted-although-tripped: inbound entry admitted at t=+{} although rule s{} trips (observed {})", t - T0_MS, tripping[0].0, tripping[0].1));
                         }
-                        self.ledger.pass(res, *inbound, t, 1);
-                        self.open.push(Open { e, inbound: *inbound, start: t });
+                        self.ledger.pass(res, *inbound, t, *batch as u64);
+                        self.open.push(Open { e, inbound: *inbound, start: t, batch: *batch });
                         if *inbound {
                             self.admits += 1;
                         } else {
@@ -285,7 +287,7 @@ impl Subject for C09 {
                                 }
                             }
                         }
-                        self.ledger.block(res, true, t, 1);
+                        self.ledger.block(res, true, t, *batch as u64);
                         self.rejects += 1;
                     }
                 }
